@@ -28,22 +28,26 @@ def _line_to_exec(execs, line):
     return len(execs) - 1, len(execs[-1]) if execs else 0
 
 
-def validate(module, cfg, specdir, records, workfile, timeout=900, max_rejects=5, heap="8g", deque=False, tag=None, props=None):
+def validate(module, cfg, specdir, records, workfile, timeout=900, max_rejects=5, heap="8g", deque=False, tag=None, props=None, chunk=300):
     """returns (n_accepted_executions, rejects, tlc_results) where rejects is a list of dicts
-    {kind: 'conformance'|'invariant', name, exec_index, line_in_exec, event, execution}"""
+    {kind: 'conformance'|'invariant', name, exec_index, line_in_exec, event, execution}.
+    The executions (Reset-delimited, independent) are validated in chunks: an invariant violation makes TLC print the whole behaviour
+    up to the violating state, which takes minutes when thousands of executions are concatenated in front of it. After a rejection the
+    validation goes on with the executions after the rejected one (those before it have been accepted)."""
     execs = split_executions(records)
-    index = list(range(len(execs)))
-    total, unvalidated = len(execs), 0
+    total, pos = len(execs), 0
     rejects, results = [], []
-    while execs:
-        flat = [r for e in execs for r in e]
+    while pos < total and len(rejects) < max_rejects:
+        part = execs[pos:pos + chunk]
+        flat = [r for e in part for r in e]
         write_ndjson(workfile, flat)
         r = tlc(module, cfg, specdir, env={"TRACE": workfile}, workers=1, timeout=timeout, heap=heap, deque=deque, tag=tag, props=props)
         results.append(r)
         if r.rc == 124:
             raise CheckError("TLC timeout validating %s (%d lines)" % (workfile, len(flat)))
         if r.ok:
-            break
+            pos += len(part)
+            continue
         line, kind, name = None, None, None
         m = re.search(r'"REJECTED_AT", (\d+)', r.out)
         if r.invariant_violated:
@@ -59,17 +63,12 @@ def validate(module, cfg, specdir, records, workfile, timeout=900, max_rejects=5
         if kind is None or line is None or line < 1:
             raise CheckError("TLC failed on trace %s:\n%s" % (workfile, r.out[-5000:]))
         line = min(line, len(flat))
-        i, k = _line_to_exec(execs, line)
-        rejects.append({"kind": kind, "name": name, "exec_index": index[i], "line_in_exec": k,
-                        "event": execs[i][k - 1] if 0 < k <= len(execs[i]) else None, "execution": execs[i]})
-        log("trace rejected: %s %s at execution %d line %d: %s" % (kind, name, index[i], k, rejects[-1]["event"]))
-        # executions are independent: those before the rejected one have been accepted, the validation goes on with the ones after it
-        execs = execs[i + 1:]
-        index = index[i + 1:]
-        if len(rejects) >= max_rejects:
-            unvalidated = len(execs)
-            break
-    return total - len(rejects) - unvalidated, rejects, results
+        i, k = _line_to_exec(part, line)
+        rejects.append({"kind": kind, "name": name, "exec_index": pos + i, "line_in_exec": k,
+                        "event": part[i][k - 1] if 0 < k <= len(part[i]) else None, "execution": part[i]})
+        log("trace rejected: %s %s at execution %d line %d: %s" % (kind, name, pos + i, k, rejects[-1]["event"]))
+        pos += i + 1
+    return total - len(rejects) - (total - pos), rejects, results
 
 
 def validate_independent(module, cfg, specdir, recs, workfile, tag=None, timeout=2400, heap="6g", max_rejects=5, props=None):
